@@ -266,6 +266,21 @@ def run(ctx, repo):
     else:
         ctx.finding('R6', '%s::%s.cleared::resets consecutive_failures' % (HJ, JUMPER), HJ, jm['cleared'].lineno,
                     'a clearance no longer resets the count of consecutive failures')
+    # only a clearance (and a jump-off reinstatement) resets the run of failures: a pass or a retirement does not
+    resetters = set()
+    for f in ast.walk(mod.tree):
+        if isinstance(f, ast.FunctionDef):
+            for n in ast.walk(f):
+                if isinstance(n, ast.Assign) and isinstance(n.value, ast.Constant) and n.value.value == 0 and any(
+                        isinstance(t, ast.Attribute) and t.attr == 'consecutive_failures' for t in n.targets):
+                    resetters.add(f.name)
+    extra = resetters - {'__init__', 'cleared', '_rank'}
+    if extra:
+        ctx.finding('R6', '%s::consecutive_failures reset in %s' % (HJ, sorted(extra)), HJ, None,
+                    'the count of consecutive failures is reset in %s: failures carried across a pass no longer add up to three, so an athlete '
+                    'jumps on after three consecutive failures' % sorted(extra), 'xx- at one height, x at the next')
+    else:
+        ctx.ok('R6', 'consecutive_failures is reset only by a clearance and by jump-off reinstatement')
     check_failed(ctx, jm['failed'])
     check_limit_test(ctx, guard)
     # limits: constants 3 (initial) and 1 (jump-off)
